@@ -637,7 +637,7 @@ def diff(p, name):
     p = Poly.coerce(p)
     vid = _ids.get(name)
     if vid is None:
-        return ZERO                           # the variable was never created: nothing depends on it
+        raise KeyError(f"derivative with respect to the unknown variable {name!r}")
     if vid == 0 or vid in _root_of or vid in _sin_to_cos or any(vid == c for c, _ in _angle.values()):
         raise UnsupportedOp(f"derivative with respect to {name} (not an independent real variable or angle)")
     if any(v in _root_of for m in p.t for v, _ in m):
